@@ -140,13 +140,19 @@ pub fn drive_anim(seed: u64, nworlds: usize, nops: usize, out: &str) -> Value {
         for _ in 0..nops {
             let rec = if rng.below(5) < 3 {
                 let dt = [0i64, 1, 1, 2, 3, 5, 8, 13, 40][rng.below(9) as usize];
-                a.advance(dt as f32 * 0.125);
+                if catch_unwind(AssertUnwindSafe(|| a.advance(dt as f32 * 0.125))).is_err() {
+                    writeln!(f, "{}", json!({"ev": "adv", "dt": dt, "st": -1, "ended": -1, "ticks": -1, "paused": [], "vb": [0, 0, 0, 0, 0, 0], "panic": 1})).unwrap();
+                    events += 1; break;
+                }
                 let (s, e, t, p) = obs(&a);
                 json!({"ev": "adv", "dt": dt, "st": s, "ended": e, "ticks": t, "paused": p, "vb": a.current_values().bits()})
             } else {
                 let to = 1 + rng.below(4) as i64;
                 let before = a.current_values().bits();
-                a.set_state(&st(to));
+                if catch_unwind(AssertUnwindSafe(|| a.set_state(&st(to)))).is_err() {
+                    writeln!(f, "{}", json!({"ev": "set", "to": to, "st": -1, "ended": -1, "ticks": -1, "paused": [], "before": before, "after": before, "vb": before, "panic": 1})).unwrap();
+                    events += 1; break;
+                }
                 let (s, e, t, p) = obs(&a);
                 sets += 1;
                 json!({"ev": "set", "to": to, "st": s, "ended": e, "ticks": t, "paused": p, "before": before, "after": a.current_values().bits(), "vb": a.current_values().bits()})
